@@ -281,8 +281,8 @@ def plan(tier, scale):
         out = [{"part": "random", "n": int(260 * scale), "bound": 3} for _ in range(12)]
         out += [{"part": "dfs", "base": {"reqs": [1, 1], "bg": bg, "plan": pl}, "bound": 1, "limit": 1500}
                 for bg in (False, True) for pl in ([], [["W", 0], ["A", 1]])]
-        out.append({"part": "dfs", "base": {"reqs": [1, 1], "bg": True, "plan": [], "style": ["cb", "sync"]}, "bound": 1, "limit": 1500})
-        out.append({"part": "dfs", "base": {"reqs": [1, 1], "bg": True, "plan": [["S", 1], ["W", 0], ["F", 0], ["F", 0]]}, "bound": 1, "limit": 2500})
+        out.append({"part": "dfs", "base": {"reqs": [1, 1], "bg": True, "plan": [], "style": ["cb", "sync"]}, "bound": 1, "limit": 9000})
+        out.append({"part": "dfs", "base": {"reqs": [1, 1], "bg": True, "plan": [["S", 1], ["W", 0], ["F", 0], ["F", 0]]}, "bound": 1, "limit": 9000})
         return out
     out = [{"part": "random", "n": int(9000 * scale), "bound": 5} for _ in range(14)]
     out += [{"part": "dfs", "base": {"reqs": [1, 1], "bg": bg, "plan": pl}, "bound": 2, "limit": 60000}
